@@ -26,6 +26,7 @@ fn field_chars() -> &'static [char] {
             }
         }
         v.extend(['😀', '\u{1}', '\u{7f}', '\u{a0}', '\u{0}', '\u{b}', '\u{301}', '１', 'ｅ', 'à', 'Å', '\u{feff}']);
+        v.extend(crate::gen::LOW_BYTE_SPECIAL);
         v
     })
 }
@@ -312,6 +313,7 @@ fn attr_chars(d: Dialect) -> &'static [char] {
             }
         }
         v.extend(['é', '中', '😀', '\u{a0}', '\u{7f}', '\u{1}', '\u{301}', '１', 'à', 'Å', '\u{feff}']);
+        v.extend(crate::gen::LOW_BYTE_SPECIAL);
         v
     };
     match d {
@@ -849,8 +851,13 @@ fn produce<S: std::io::Write>(wl: &Workload, sink: S) -> Result<(), String> {
                 }
                 return Ok(());
             }
-            for r in &wl.bed_recs {
-                wr.write(r).map_err(|e| e.to_string())?;
+            for (j, r) in wl.bed_recs.iter().enumerate() {
+                // every other record goes through Clone first
+                if j % 2 == 1 {
+                    wr.write(&r.clone()).map_err(|e| e.to_string())?;
+                } else {
+                    wr.write(r).map_err(|e| e.to_string())?;
+                }
             }
         }
         Fmt::Gff(d) => {
@@ -875,8 +882,13 @@ fn produce<S: std::io::Write>(wl: &Workload, sink: S) -> Result<(), String> {
                 }
                 return Ok(());
             }
-            for r in &wl.gff_recs {
-                wr.write(r).map_err(|e| e.to_string())?;
+            for (j, r) in wl.gff_recs.iter().enumerate() {
+                // every other record goes through Clone first (the clone keeps hasher and layout)
+                if j % 2 == 1 {
+                    wr.write(&r.clone()).map_err(|e| e.to_string())?;
+                } else {
+                    wr.write(r).map_err(|e| e.to_string())?;
+                }
             }
         }
     }
